@@ -202,11 +202,12 @@ def r3_ids(report, repo):
   report.expect_instances(rule, len(ins), 1, 'map insertions')
   i = ins[0]
   key = dotted(i.ast.targets[0].slice)
+  keys = lib.copy_class(f, key) if key else set()
 
   def free(s, l, d):
     if s.kind != 'test' or not isinstance(s.ast, ast.Compare):
       return False
-    if dotted(s.ast.left) != key or 'self._stream_transport_map' not in norm(
+    if dotted(s.ast.left) not in keys or 'self._stream_transport_map' not in norm(
         s.ast.comparators[0]):
       return False
     return l == ('T' if isinstance(s.ast.ops[0], ast.NotIn) else 'F')
@@ -244,7 +245,8 @@ def r3_ids(report, repo):
                list(zip(lows, highs)))
   asg = [n.ast for n in g.nodes if n.kind == 'stmt' and isinstance(
       n.ast, ast.Assign) and dotted(n.ast.targets[0]) == 'self._last_id_used'
-         and not core.is_name(n.ast.value, key)]
+         and not (isinstance(n.ast.value, ast.Name) and
+                  n.ast.value.id in keys)]
   okshape = len(asg) == 1
   if okshape:
     v = asg[0].value
@@ -307,7 +309,8 @@ def r4_open(report, repo):
   kw = core.get_kw(hm[0], 'handle_wrte', 1) if hm else None
   rets = [n for n in walk_no_nested(e.node) if isinstance(n, ast.Return)]
   ok = len(hm) == 1 and isinstance(kw, ast.Constant) and kw.value is False and \
-      len(rets) == 1 and call_name(rets[0].value) == 'self.is_open'
+      len(rets) == 1 and all(call_name(x) == 'self.is_open'
+                             for x in lib.resolved(e, rets[0].value))
   report.check(ok, rule, e.qualname, 'first-message', e.node,
                'the first message must be OKAY or CLSE (WRTE refused); result '
                'is is_open()')
